@@ -130,6 +130,12 @@ def write_replay(pid, seed, n, obj):
 
 
 def main():
+    # A shell that starts a command asynchronously without job control (`cmd &` in a script, nohup) hands it SIGINT
+    # *ignored*, and Python then installs no KeyboardInterrupt handler - in this process and in every child. The
+    # interrupt checks (C12-C14) deliver real SIGINTs to their own children, so restore the terminal's disposition.
+    import signal
+    if signal.getsignal(signal.SIGINT) == signal.SIG_IGN:
+        signal.signal(signal.SIGINT, signal.default_int_handler)
     ap = argparse.ArgumentParser()
     ap.add_argument('pid')
     ap.add_argument('--tier', default=os.environ.get('VERIF_TIER', 'quick'), choices=['quick', 'thorough'])
